@@ -701,6 +701,9 @@ static FSM::Instance* make(int i, bool withLogger, int fill, const FSM::Instance
 #endif
 }
 
+#ifdef H_COVERAGE
+extern "C" void __gcov_dump(void);
+#endif
 int main() {
 	Script& script = g_script;
 	std::string line;
@@ -808,5 +811,8 @@ int main() {
 	printf("allocs %ld\n", g_allocs);
 #endif
 	fflush(stdout);
+#ifdef H_COVERAGE
+	__gcov_dump();        // tools/coverage.py: which lines of the library do the scripts reach
+#endif
 	_Exit(0);
 }
